@@ -340,7 +340,26 @@ def aimed_stacked_position_case(rng):
     return {'doc': doc, 'path': text, 'aim': 'stacked-position'}
 
 
+def aimed_wildcard_chain_case(rng):
+    """a predicate-free multi-step path that mixes `*` steps with the names a / b, on a deep chain-like document over the
+    same two names: the shape on which a prefix-function (KMP) matcher and the general matcher part ways if `*` is
+    ever treated like a name test (seeded changes C05-3 / C17-3: caught by one case in 80 000 before this generator)."""
+    def chain(d):
+        node = {'a': [], 'e': ['', rng.choice(['a', 'a', 'b'])], 'k': []}
+        if d > 0:
+            node['k'] = [chain(d - 1) for _ in range(rng.choice([1, 1, 1, 2]))]
+        return node
+    doc = chain(rng.choice([4, 5, 6, 7]))
+    lead = rng.choice(['descendant::a', '//a', 'a', './/a', 'descendant::b', '//b', 'descendant::*', '*'])
+    steps = [rng.choice(['a', 'a', 'b', '*', 'child::*']) for _ in range(rng.choice([2, 2, 3, 4]))]
+    if not any('*' in x for x in steps):
+        steps[rng.randrange(len(steps))] = '*'
+    return {'doc': doc, 'path': lead + '/' + '/'.join(steps), 'aim': 'wildcard-chain'}
+
+
 def gen_case(rng, profile=None):
+    if profile is None and rng.random() < 0.05:
+        return aimed_wildcard_chain_case(rng)
     if profile is None and rng.random() < 0.08:
         return aimed_union_case(rng)
     if profile is None and rng.random() < 0.06:
